@@ -2,6 +2,7 @@
 from __future__ import annotations
 
 import ast
+from typing import Optional
 
 from ..effects import effects_for
 from ..lib import Facts, calls_in, own_nodes, stmt_of
@@ -175,7 +176,9 @@ def check(run: Run) -> None:
 
     # ---------------- R7: registration replaces an earlier registration of the same name (last one wins)
     run.rule("C09.R7", "register_func_adl_function stores _global_functions[name] = info (a later registration replaces an earlier one); nested lambdas are followed with their own parameter's type")
-    rf = m.find_func("register_func_adl_function", in_module=mod)
+    from ..lib import view as _view7
+
+    rf = _view7(m, m.find_func("register_func_adl_function", in_module=mod))
     stores_ = [n for n in own_nodes(rf) if isinstance(n, ast.Assign) and isinstance(n.targets[0], ast.Subscript) and ast.unparse(n.targets[0].value) == "_global_functions"]
     weak = [c for c in calls_in(rf) if isinstance(c.func, ast.Attribute) and c.func.attr in ("setdefault",) and ast.unparse(c.func.value) == "_global_functions"]
     fr = ctx.analysis(rf)
@@ -314,6 +317,38 @@ def _threading(run: Run, ctx, eff, m, fi: FuncInfo, c: ast.Call, kind: str, help
     if not ok_unpack:
         return
     s_name, n_name = st.targets[0].elts[0].id, st.targets[0].elts[1].id  # type: ignore
+    # other names the returned node goes by afterwards: x = <that value> (directly, or through a helper that hands its
+    # argument back after checking it)
+    n_names = {n_name}
+
+    def _hands_back(e) -> Optional[str]:
+        """the name whose value e is: a name itself, or h(name, ..) with h a package function that returns its first
+        argument on every path (a checking / narrowing helper)"""
+        if isinstance(e, ast.Name):
+            return e.id
+        if isinstance(e, ast.Call) and e.args and isinstance(e.args[0], ast.Name) and isinstance(e.func, (ast.Name, ast.Attribute)):
+            h_ = None
+            if isinstance(e.func, ast.Name):
+                t_ = m.lookup_target(m.resolve_dotted(fi.module, fi, e.func.id))
+                h_ = t_ if isinstance(t_, FuncInfo) else None
+                skip_ = 0
+            elif isinstance(e.func.value, ast.Name) and fi.cls is not None and fi.pos_params and e.func.value.id == fi.pos_params[0]:
+                h_ = m.find_method(fi.cls, e.func.attr)
+                skip_ = 0 if (h_ is not None and "staticmethod" in h_.decorators) else 1
+            if h_ is not None and len(h_.pos_params) > skip_:
+                try:
+                    rt_ = strip_sites(ctx.analysis(h_).return_term())
+                except AnalysisError:
+                    return None
+                if rt_ == ("param", h_.pos_params[skip_]):
+                    return e.args[0].id
+        return None
+
+    for _round in range(3):
+        for n in own_nodes(fi):
+            if isinstance(n, ast.Assign) and len(n.targets) == 1 and isinstance(n.targets[0], ast.Name) and n is not st and fa.cfg.has_node(n) and fa.cfg.dominates(fa.cfg.node_of(st), fa.cfg.node_of(n)) and _same_block_after(st, n):
+                if _hands_back(n.value) in n_names:
+                    n_names.add(n.targets[0].id)
     # the returned stream becomes the current stream
     adopt = [n for n in own_nodes(fi) if isinstance(n, ast.Assign) and isinstance(n.targets[0], ast.Attribute) and n.targets[0].attr == "_stream" and isinstance(n.value, ast.Name) and n.value.id == s_name]
     dom = [n for n in adopt if fa.cfg.dominates(fa.cfg.node_of(st), fa.cfg.node_of(n)) and _same_block_after(st, n)]
@@ -333,16 +368,16 @@ def _threading(run: Run, ctx, eff, m, fi: FuncInfo, c: ast.Call, kind: str, help
                 ok_cr = any(isinstance(r.value, ast.Name) and r.value.id == st2.targets[0].id for r, _n in cfa.returns())
                 run.check(ok_cr, rule, caller, st2, "the (possibly rewritten) node is returned to visit_Call", f"the node returned by the {kind} is not what {caller.name} returns")
         elif kind.startswith("method") or kind.startswith("function"):
-            ok_n = isinstance(passed, ast.Name) and passed.id == n_name
+            ok_n = isinstance(passed, ast.Name) and passed.id in n_names
             run.check(ok_n, rule, fi, st, "the callback receives the current node and its result replaces it", f"the {kind} receives '{ast.unparse(passed)}' but its result is bound to '{n_name}': a rewrite returned by an earlier callback is not what the next one sees / what is emitted")
     # the function returns that node
     rets = [s for s, _n in fa.returns()]
-    ok_ret = any(isinstance(r.value, ast.Name) and r.value.id == n_name for r in rets)
+    ok_ret = any(r.value is not None and _hands_back(r.value) in n_names for r in rets)
     run.check(ok_ret, rule, fi, st, "the (possibly rewritten) node is returned to visit_Call", f"the node returned by the {kind} is not what {fi.name} returns")
     # R6 back-link
     linked = False
     for n in own_nodes(fi):
-        if isinstance(n, ast.Assign) and isinstance(n.targets[0], ast.Attribute) and n.targets[0].attr == "_old_ast" and isinstance(n.targets[0].value, ast.Name) and n.targets[0].value.id == n_name and fa.cfg.dominates(fa.cfg.node_of(st), fa.cfg.node_of(n)):
+        if isinstance(n, ast.Assign) and isinstance(n.targets[0], ast.Attribute) and n.targets[0].attr == "_old_ast" and isinstance(n.targets[0].value, ast.Name) and n.targets[0].value.id in n_names and fa.cfg.dominates(fa.cfg.node_of(st), fa.cfg.node_of(n)):
             linked = True
         if isinstance(n, ast.Call) and fa.cfg.has_node(n) and fa.cfg.dominates(fa.cfg.node_of(st), fa.cfg.node_of(n)) and n is not c:
             for callee, binding, _how in eff._callee_bindings(fi, fa, n):
@@ -351,7 +386,7 @@ def _threading(run: Run, ctx, eff, m, fi: FuncInfo, c: ast.Call, kind: str, help
                 for mu in eff.summary.get(callee.qual, []):
                     if "._old_ast" in mu.kind and mu.loc[0][0] == "param" and mu.loc[1] is None and not mu.loc[2]:
                         actual = binding.get(mu.loc[0][1])
-                        if isinstance(actual, ast.Name) and actual.id == n_name:
+                        if isinstance(actual, ast.Name) and actual.id in n_names:
                             linked = True
     run.check(linked, "C09.R6", fi, st, f"the node returned by the {kind} gets an _old_ast back-link", f"the node returned by the {kind} carries no _old_ast back-link: when the call site is the whole body of a lambda given to a collection operator, the rewrite is not patched into the emitted lambda (metadata is kept, the query still shows the old call)", "<returned node>._old_ast = <node it replaces>")
 
